@@ -45,6 +45,12 @@ def analyse_writers(ctx, f, roles):
             continue
         if body.argc < 1 or body.local_name(1) != "self":
             continue
+        if private_part_of_writers(f, roles, w):
+            # a helper private to the state's module that does part of a writer's work (the set update without the key, or
+            # the key without the set update): hash and state are in step at the writers that can be called from outside,
+            # which are read with such helpers inlined
+            ctx.ok("%s:private-part" % short(w), {"helper": short(w), "read": "inlined at its callers, all methods of the state type"})
+            continue
         paths = sym.SymExec(f, body).run()
         ctx.saw("%s: %d paths" % (w, len(paths)))
         if any(p.pre_loop for p in paths) and set_toggle_writer(ctx, f, w, body, paths, root, hf, features):
@@ -431,7 +437,7 @@ def closed_writer_set(ctx, f, roles):
     for fl in adt["variants"][0]["fields"]:
         ctx.check(not fl["pub"], "field-private:%s" % fl["name"],
                   "field %s of the inner position state is public: the hash can be desynchronised from outside" % fl["name"])
-    outside = sorted({k for k in roles.writers if f.bodies[k].j.get("impl_self") != ity})
+    outside = sorted({k for k in roles.direct_writers if f.bodies[k].j.get("impl_self") != ity})
     ctx.check(not outside, "writers-inside-state-type",
               "fields of the inner position state are written (or borrowed mutably) outside its own methods: %s" % outside,
               sample={"writers": sorted(short(k) for k in roles.writers)})
@@ -476,6 +482,39 @@ def closed_writer_set(ctx, f, roles):
             ctx.check(h == ("int", 0, "u64") and empty, "%s:zero-hash-empty-state" % short(k),
                       "%s does not start from (empty position, hash 0): %s" % (k, sym.show(r)[:300]), loc(b),
                       sample={"constructor": short(k), "hash": sym.show(h) if h else None})
+
+
+def private_part_of_writers(f, roles, w):
+    """w is visible only inside the module that defines the position state and every caller is a method of the state
+    type that is not itself such a private part without callers (so every use is read through a writer visible outside)"""
+    import re as _re
+    from ..facts import callee_name
+    ity = roles.inner_ty
+    own_module = ity.rsplit("::", 1)[0].split("::", 1)[-1]
+
+    def private(k):
+        m_ = _re.match(r"Restricted\(DefId\([^~]*~ [^:]*::(.*)\)\)$", (f.fns.get(k) or {}).get("vis", ""))
+        return bool(m_ and m_.group(1) == own_module)
+    if not private(w):
+        return False
+    seen, work = set(), [w]
+    reaches_visible = False
+    while work:
+        k = work.pop()
+        callers = {k2.split("::{closure")[0] for k2, b in f.bodies.items() if any(callee_name(t) == k for _, t in b.calls())}
+        if not callers:
+            continue
+        for c in callers:
+            cb = f.bodies.get(c)
+            if cb is None or cb.j.get("impl_self") != ity:
+                return False
+            if private(c):
+                if c not in seen:
+                    seen.add(c)
+                    work.append(c)
+            else:
+                reaches_visible = True
+    return reaches_visible
 
 
 def key_toggle_helper(f, roles, w, body, leaves):
